@@ -123,6 +123,12 @@ func (e *Exec) bytesTerm(s *SliceV) *Term {
 	if s.Nil || s.Len == 0 {
 		return bEmpty
 	}
+	if arr, ok := s.A.V.(*ArrayV); ok && arr.Chunk != nil && arr.Chunk.N.IsConst() {
+		// a slice ending exactly where the (truncated) copied bytes end
+		if bt := e.chunkBytes(arr, s.Off, IntI(int64(s.Off+s.Len))); bt != nil {
+			return bt
+		}
+	}
 	return bytesOfBV(concatBytes(e.sliceElems(s)))
 }
 
